@@ -200,14 +200,14 @@ class ProductErrorNode(ErrorNode):
             field, child = next(iter(self.children.items()))
             if not isinstance(child, ProductErrorNode):
                 break
-            children: t.Dict[t.Union[str, int], ErrorNode] = {f"{field}.{k}": v for (k, v) in child.children.items()}
-            missing = set(f"{field}.{f}" for f in child.missing)
-            extra = set(f"{field}.{f}" for f in child.extra)
+            children: t.Dict[t.Union[str, int], ErrorNode] = {f"{field}.{_show(k)}": v for (k, v) in child.children.items()}
+            missing = set(f"{field}.{_show(f)}" for f in child.missing)
+            extra = set(f"{field}.{_show(f)}" for f in child.extra)
             self = ProductErrorNode(self.expected, children, self.actual, missing, extra)
 
         print(f"{'' if inside_sum else 'Expected '}{self.expected}", file=file)
         for (field, child) in self.children.items():
-            print(f"{indent}While parsing field '{field}':\n{indent}  ", end="", file=file)
+            print(f"{indent}While parsing field '{_show(field)}':\n{indent}  ", end="", file=file)
             child.print_error(f"{indent}  ", file=file)
 
         for field in sorted(self.missing, key=str):  # sets: sort for a reproducible message
@@ -215,8 +215,8 @@ class ProductErrorNode(ErrorNode):
                 field = '/'.join(field)
             print(f"{indent}  Missing required field '{field}'", file=file)
 
-        for field in sorted(self.extra, key=str):
-            print(f"{indent}  Unexpected field '{field}'", file=file)
+        for field in sorted(self.extra, key=_show):  # (a key can be anything hashable, e.g. an int too long to print)
+            print(f"{indent}  Unexpected field '{_show(field)}'", file=file)
 
 
 _UNSET: t.Any = object()
